@@ -48,8 +48,10 @@ G3D_SURFACE = ['ELLIPSOID', 'POINT', 'POLYGON', 'ELLIPSE']
 
 
 def cc(code):
+    """(value, scheme[, version]) -> CodedConcept"""
     from highdicom.sr import CodedConcept
-    return CodedConcept(value=code[0], scheme_designator=code[1], meaning='meaning of ' + code[0])
+    return CodedConcept(value=code[0], scheme_designator=code[1], meaning='meaning of ' + code[0],
+                        scheme_version=code[2] if len(code) > 2 else None)
 
 
 def _data2d(r, g):
